@@ -924,8 +924,15 @@ func dumpGraph(d *linker.VerifC10Dump, minify bool) (string, string) {
 				if sym.Missing {
 					continue // "Ignore symbols that are going to be replaced by undefined"
 				}
-				if sym.HasNSAlias {
-					return "", "namespace alias " + sym.Name
+				// the linker tests NamespaceAlias on the symbol AFTER following ImportsToBind
+				t := u
+				for _, b := range f.Binds {
+					if b.Key == u {
+						t = b.Target
+					}
+				}
+				if ts := d.Files[t[0]].Symbols[t[1]]; ts.HasNSAlias {
+					return "", "namespace alias " + ts.Name
 				}
 				uses = append(uses, u)
 			}
